@@ -1,6 +1,6 @@
 (* C19: property theorems (statements in full; proofs in Proofs*.v). *)
 From Coq Require Import List NArith ZArith Bool.
-From C19 Require Import Gen Model Spec ProofsPtr ProofsPatch ProofsParse RTNum RTStr RTDefs RTFinal.
+From C19 Require Import Gen Model Spec ProofsPtr ProofsPatch ProofsParse RTNum ProofsDouble RTStr RTDefs RTFinal.
 Import ListNotations.
 Local Open Scope N_scope.
 
@@ -28,6 +28,35 @@ Proof.
   repeat split; try apply Hv; try apply He; try apply Hm; auto; Lia.lia.
 Qed.
 Print Assumptions c19_total_inner.
+
+(* Totality for numbers, doubles included.  A text that starts with '-' or a digit is handled by
+   ParseNumber alone: (1) it costs ONE unit of the recursion budget whatever digits follow (the
+   three ExtractDigits loops are structural recursion over the characters, so the work is bounded
+   by the length of the text and is independent of the VALUE of the mantissa or exponent);
+   (2) it never hits a hazard and, when it succeeds, has consumed at least one character;
+   (3) a JsonDouble leaf it produces stores DoubleRepresentation exactly as the code does, after
+   the uint64 wrap of full/fractional/exponent digits and the int64 -> int32 truncation of the
+   exponent: full, fractional < 2^64, leading_fractional_zeros < 2^32, -2^31 <= exponent < 2^31.
+   JsonDouble::AsDouble (floating point, pow) is NOT modelled: that it does no work proportional
+   to the exponent is checked by the correspondence run's 4 s per-case watchdog only. *)
+Theorem c19_total_double :
+  forall (f : nat) (d c : N) (r : list N),
+    c = 45 \/ is_digit c = true ->
+    parse_value (S f) d (c :: r) = parse_number (c :: r) /\
+    good (parse_number (c :: r)) (length (c :: r)) /\
+    (forall v rest, parse_number (c :: r) = POk v rest ->
+       match v with
+       | JDbl _ full lz frac ex =>
+           full < 18446744073709551616 /\ lz < 4294967296 /\ frac < 18446744073709551616 /\
+           (-2147483648 <= ex < 2147483648)%Z
+       | _ => True
+       end).
+Proof. exact total_double. Qed.
+Print Assumptions c19_total_double.
+Example c19_double_huge_exponent :
+  parse_text [50; 53; 101; 49; 50; 51; 52; 53; 54; 55; 56; 57; 48; 49; 50; 51; 52; 53] =
+  POk (JDbl false 25 0 0 (-2045911175)%Z) [].     (* 25e123456789012345: exponent mod 2^32 as int32 *)
+Proof. vm_compute. reflexivity. Qed.
 
 (* Write-then-parse is the identity.  For EVERY value tree v accepted by the guard RTDefs.wfb
    (printable-ASCII strings and keys (32..126); JUInt < 2^32, JInt in [-2^31, 2^31), JUInt64 < 2^64,
